@@ -34,6 +34,18 @@ def byte_ordered(u, n, order):
     return ite(order == 'leastSignificantByteFirst', le(tb(u, ceil8(n))), u)
 
 
+# ---- calibration (C08) ----------------------------------------------------------------------------------------------------
+
+def chord(p0, p1, q):
+    """value at q of the line through spline points p0 and p1"""
+    return (p1.calibrated - p0.calibrated) / (p1.raw - p0.raw) * (q - p0.raw) + p0.calibrated
+
+
+def poly_value(coeffs, x):
+    """sum of a_i * x ** n_i over the coefficient list (real arithmetic, S3)"""
+    return sum([c.coefficient * rpow(toreal(x), c.exponent) for c in coeffs])
+
+
 # ---- framing (C02 / C10): record boundaries of a byte stream -----------------------------------------------------------
 
 def declared_len(T, a):
